@@ -298,7 +298,7 @@ class Harness:
 
     async def build(self, **kw):
         self.register()
-        self.sdl = self.plan.get("sdl") or print_sdl(self.schema)
+        self.sdl = self.plan.get("sdl") or print_sdl(self.schema, ext_dirs=bool(self.plan.get("sdl_ext_dirs")))
         if self.plan.get("custom_default_resolver"):
             kw["custom_default_resolver"] = self.custom_default_resolver
         if self.plan.get("tr_engine"):
@@ -317,46 +317,59 @@ class Harness:
         self.rs = RequestState(self.rs.tree, self.ctx_token)
 
 
+class CountingDirective:
+    """Pass-through directive implementing every per-field / per-value hook; counts
+    invocations in the request state of its harness.  One shared class, one *instance*
+    per (harness, directive name): engines of different schema names get differently
+    configured instances of the same class.  With plan["directive_tag"] set, field
+    hooks append that tag to String results (behaviour that differs between bundles)."""
+
+    def __init__(self, H, name):
+        self.H, self.name = H, name
+
+    async def on_argument_execution(self, directive_args, next_directive, parent_node, argument_definition_node, argument_node, value, ctx):
+        H, name = self.H, self.name
+        rs = H.state_of(ctx)
+        rs.hooks.append((name, "on_argument_execution"))
+        if H.gate is not None and H.plan.get("gate_hooks"):
+            await H.gate(("hook", name, "on_argument_execution", len(rs.hooks), rs.rid))
+        return await next_directive(parent_node, argument_definition_node, argument_node, value, ctx)
+
+    async def on_post_input_coercion(self, directive_args, next_directive, parent_node, value, ctx):
+        H, name = self.H, self.name
+        rs = H.state_of(ctx)
+        rs.hooks.append((name, "on_post_input_coercion"))
+        if H.gate is not None and H.plan.get("gate_hooks"):
+            await H.gate(("hook", name, "on_post_input_coercion", len(rs.hooks), rs.rid))
+        return await next_directive(parent_node, value, ctx)
+
+    async def on_field_execution(self, directive_args, next_resolver, parent, args, ctx, info):
+        self.H.state_of(ctx).hooks.append((self.name, "on_field_execution"))
+        r = await next_resolver(parent, args, ctx, info)
+        tag = self.H.plan.get("directive_tag")
+        if tag and isinstance(r, str) and str(info.return_type).rstrip("!") == "String":
+            return "%s<%s:%s>" % (r, tag, self.name)
+        return r
+
+    async def on_pre_output_coercion(self, directive_args, next_directive, value, ctx, info):
+        self.H.state_of(ctx).hooks.append((self.name, "on_pre_output_coercion"))
+        return await next_directive(value, ctx, info)
+
+    async def on_field_collection(self, directive_args, next_directive, field_node, ctx):
+        self.H.state_of(ctx).hooks.append((self.name, "on_field_collection"))
+        return await next_directive(field_node, ctx)
+
+    async def on_fragment_spread_collection(self, directive_args, next_directive, fragment_spread_node, ctx):
+        self.H.state_of(ctx).hooks.append((self.name, "on_fragment_spread_collection"))
+        return await next_directive(fragment_spread_node, ctx)
+
+    async def on_inline_fragment_collection(self, directive_args, next_directive, inline_fragment_node, ctx):
+        self.H.state_of(ctx).hooks.append((self.name, "on_inline_fragment_collection"))
+        return await next_directive(inline_fragment_node, ctx)
+
+
 def make_counting_directive(H, name):
-    """pass-through directive implementing every per-field / per-value hook; counts invocations"""
-
-    class D:
-        async def on_argument_execution(self, directive_args, next_directive, parent_node, argument_definition_node, argument_node, value, ctx):
-            rs = H.state_of(ctx)
-            rs.hooks.append((name, "on_argument_execution"))
-            if H.gate is not None and H.plan.get("gate_hooks"):
-                await H.gate(("hook", name, "on_argument_execution", len(rs.hooks), rs.rid))
-            return await next_directive(parent_node, argument_definition_node, argument_node, value, ctx)
-
-        async def on_post_input_coercion(self, directive_args, next_directive, parent_node, value, ctx):
-            rs = H.state_of(ctx)
-            rs.hooks.append((name, "on_post_input_coercion"))
-            if H.gate is not None and H.plan.get("gate_hooks"):
-                await H.gate(("hook", name, "on_post_input_coercion", len(rs.hooks), rs.rid))
-            return await next_directive(parent_node, value, ctx)
-
-        async def on_field_execution(self, directive_args, next_resolver, parent, args, ctx, info):
-            H.state_of(ctx).hooks.append((name, "on_field_execution"))
-            return await next_resolver(parent, args, ctx, info)
-
-        async def on_pre_output_coercion(self, directive_args, next_directive, value, ctx, info):
-            H.state_of(ctx).hooks.append((name, "on_pre_output_coercion"))
-            return await next_directive(value, ctx, info)
-
-        async def on_field_collection(self, directive_args, next_directive, field_node, ctx):
-            H.state_of(ctx).hooks.append((name, "on_field_collection"))
-            return await next_directive(field_node, ctx)
-
-        async def on_fragment_spread_collection(self, directive_args, next_directive, fragment_spread_node, ctx):
-            H.state_of(ctx).hooks.append((name, "on_fragment_spread_collection"))
-            return await next_directive(fragment_spread_node, ctx)
-
-        async def on_inline_fragment_collection(self, directive_args, next_directive, inline_fragment_node, ctx):
-            H.state_of(ctx).hooks.append((name, "on_inline_fragment_collection"))
-            return await next_directive(inline_fragment_node, ctx)
-
-    D.__name__ = "D_" + name
-    return D
+    return CountingDirective(H, name)
 
 
 class Unserialisable:
